@@ -466,6 +466,17 @@ def run_check(prop, tier, seed, replay=None):
         ctx2.broken = ctx2.broken or ctx.broken
         ctx = ctx2
     broken += ctx.broken
+    # a translator tie that is LOST (the source left the translatable subset) leaves the property shown by the hand model + sampled
+    # correspondence only: the all-input statement about the source is gone for that piece, so the sampling is escalated to the
+    # failing-input search budgets before the run may say 'holds' (ties the SPEC lists under lost_ok are lost on the clean tree)
+    lost_new = [k for k in lost if k not in spec.get('lost_ok', [])]
+    if lost_new and not broken and not ctx.failures and not ctx.search and not replay and tier == 'quick' \
+            and os.environ.get('VERIF_NO_ESCALATE') != '1':
+        ctx2 = execute(True)
+        ctx2.notes.append(f'escalated search after lost translator tie(s): {lost_new}')
+        ctx2.stats['escalated-after-lost-tie'] = 1
+        ctx = ctx2
+        broken += ctx.broken
 
     # 7. verdict
     violations = []
